@@ -406,7 +406,7 @@ fn walk(pp: &mut ParsedPacket, sec: &str, incl_opt: bool, plan: &str) -> String 
 const ERR_KINDS: usize = 13;
 static LAST_CERR: std::sync::atomic::AtomicPtr<dnssector::c_abi::CErr> = std::sync::atomic::AtomicPtr::new(std::ptr::null_mut());
 
-fn schedule(nthreads: usize, steps: &str) -> String {
+fn schedule(nthreads: usize, steps: &str, named_main: bool) -> String {
     use std::ffi::CStr;
     use std::sync::{Arc, Condvar, Mutex};
     // steps: "t:f<kind>" | "t:r", '.'-separated, executed in exactly this global order
@@ -429,7 +429,10 @@ fn schedule(nthreads: usize, steps: &str) -> String {
         let parsed = parsed.clone();
         let gates = gates.clone();
         let results = results.clone();
-        handles.push(std::thread::Builder::new().stack_size(256 * 1024).spawn(move || {
+        let builder = std::thread::Builder::new().stack_size(256 * 1024);
+        // HM: every thread of the schedule carries the name the runtime gives the initial thread
+        let builder = if named_main { builder.name("main".to_string()) } else { builder };
+        handles.push(builder.spawn(move || {
             let table = dnssector::c_abi::fn_table();
             let base: Vec<u8> = vec![0, 7, 0x81, 0x80, 0, 1, 0, 0, 0, 0, 0, 0, 1, b'q', 0, 0, 1, 0, 1];
             let mut pp = DNSSector::new(base).unwrap().parse().unwrap();
@@ -707,7 +710,8 @@ fn run_op(ctx: &mut Ctx, op: &str) -> String {
     let f: Vec<&str> = op.split(',').collect();
     match f[0] {
         // ---- stateless -------------------------------------------------------------
-        "H" => schedule(f[1].parse().unwrap(), f[2]),
+        "H" => schedule(f[1].parse().unwrap(), f[2], false),
+        "HM" => schedule(f[1].parse().unwrap(), f[2], true),
         "HS" => sequential_failures(f[1].parse().unwrap()),
         // parse, one operation through the C function table, the bytes: as one operation (for the purity pairs of C17)
         "PF" => {
